@@ -6,7 +6,7 @@ use std::path::{Path, PathBuf};
 use zysim_common::{Value, json};
 
 /// File slots, relative to the world directory `w/`.
-pub const SLOTS: [&str; 10] = [
+pub const SLOTS: [&str; 11] = [
     "root.zy",
     "a.zy",
     "b.zy",
@@ -19,6 +19,8 @@ pub const SLOTS: [&str; 10] = [
     // a file in a directory that exists only while the file does: its identity is
     // computed with two missing components when it is looked up before it exists
     "g/h.zy",
+    // differs from `a.zy` only in letter case (the scratch file system is case sensitive)
+    "A.zy",
 ];
 pub const SLOT_ROOT: usize = 0;
 pub const SLOT_A: usize = 1;
@@ -30,6 +32,7 @@ pub const SLOT_MAIN: usize = 6;
 pub const SLOT_E: usize = 7;
 pub const SLOT_INPUT: usize = 8;
 pub const SLOT_H: usize = 9;
+pub const SLOT_UPPER_A: usize = 10;
 pub const MISSING: usize = 99; // an import of a file that never exists
 /// an import whose file name is longer than NAME_MAX (ENAMETOOLONG, not "not found")
 pub const MISSING_TOO_LONG: usize = 98;
